@@ -108,7 +108,7 @@ def run(pid, tier):
     rel_cases = []
     for c in cases:
         o = outcomes[c['id']]
-        if o['status'] == 'ok' and rnd.random() < 0.35:
+        if o['status'] == 'ok' and rnd.random() < 0.8:
             rc = pgen.derive_relations(c, o['solution'], rnd)
             if rc:
                 rel_cases.append(rc)
@@ -154,9 +154,16 @@ def run(pid, tier):
     recs_by_id = {r['id']: r for r in recs}
     mine = set(ATTR[pid])
     others = collections.Counter()
+    # a leg with a negative matrix entry makes the time replay of that record meaningless: such a record is attributed
+    # to Reach only
+    reach_bad = {rid for name, _, rid in res.fails if name == 'Reach'}
+    TIME_FAMILY = {'PlacesAndWindows', 'ScheduleArrivals', 'ScheduleDepartures', 'ShiftEnd', 'TourStat', 'StopDistances',
+                   'TourCost', 'OverallStat', 'LimitDistance', 'LimitDuration'}
     for name, idx, rid in res.fails:
         if name not in mine:
             others[name] += 1
+            continue
+        if rid in reach_bad and name in TIME_FAMILY:
             continue
         c = cases_by_id[rid]
         key = '%s/%s/%s' % (pid, name, qualifier(name, c, recs_by_id[rid]))
